@@ -407,13 +407,15 @@ def check_bins(ctx, tab, expected_bins, key, sub):
     return True
 
 
-def judge_exact(ctx, tab, blocks, attributed, ref_male, kp, sub):
+def judge_exact(ctx, tab, blocks, attributed, ref_male, kp, sub, anti_bins=()):
     """Every output bin against the model.  One violation per (call, key): the first failing bin + the count."""
     model = RB.pooled_reference([[[(r[0], r[1], r[2], r[5]) for r in rows] for rows in blk] for blk in blocks], attributed, ref_male)
     fails = {}
+    anti_set = {(b[0], b[1], b[2]) for b in anti_bins}
     for c, s, e, lg, sp in zip(tab["chromosome"], tab["start"], tab["end"], tab["log2"], tab["spread"]):
         m = model[(c, s, e)]
         role = RB.role_of(c)
+        role = ("autosome" if role == "auto" else "chr" + role) + ("/antitarget" if (c, s, e) in anti_set else "/target")
         feat = RB.estimator_feature(m["info"])
         info = m["info"]
         ctx.stratum("estimator: " + feat)
@@ -426,11 +428,11 @@ def judge_exact(ctx, tab, blocks, attributed, ref_male, kp, sub):
         if info["borderline"]:
             ctx.stratum("estimator: step length within 1e-9 of the tolerance (both continuations accepted)")
         if not (math.isfinite(lg) and any(RB.close(lg, v, TOL_ITER) for v in m["log2"])):
-            k = f"pooled/log2/estimator:{feat}/{role}/{kp}"
+            k = f"pooled/log2/{role}"
             f = fails.setdefault(k, ["each bin's log2 is Tukey's biweight location over {neutral pseudo-sample} + the centred, sex-shifted samples", 0, None])
             f[1] += 1
             if f[2] is None:
-                f[2] = {"bin": [c, s, e], "expected": m["log2"], "observed": lg, "estimator_inputs": m["values"]}
+                f[2] = {"bin": [c, s, e], "expected": m["log2"], "observed": lg, "estimator_inputs": m["values"], "estimator_path": feat}
             continue  # the spread is defined about the location; judged only where the location stands
         ok, mv = RB.spread_ok(sp, m["values"], lg, TOL_ITER)
         if mv["near_symmetric"]:
@@ -438,7 +440,7 @@ def judge_exact(ctx, tab, blocks, attributed, ref_male, kp, sub):
         else:
             ctx.stratum("spread: asymmetric inputs (formula required)")
         if not ok:
-            k = f"pooled/spread/{role}/{kp}"
+            k = f"pooled/spread/{role}"
             f = fails.setdefault(k, ["each bin's spread is the biweight midvariance of the same values about the bin's log2", 0, None])
             f[1] += 1
             if f[2] is None:
@@ -468,7 +470,7 @@ def judge_sex_levels(ctx, tab, ref_male, kp, sub, tol=SEM_TOL):
         if not abs(got - want) <= tol:
             ctx.violation(
                 f"chr{role} lies at {'-1.0 (male reference) / 0 (female reference)' if role == 'X' else 'the single-copy level -1.0'} relative to the autosomal baseline",
-                f"pooled/sex-level/chr{role}/{'male-ref' if ref_male else 'female-ref'}/{kp}",
+                f"{kp}/sex-level/chr{role}",
                 expected=want,
                 observed=got,
                 sub=sub,
@@ -494,9 +496,7 @@ def run_pooled(case, ctx, tmp):
             attributed = list(map(bool, sexes)) if mode == "inferred" else [mode == "given-male"] * k
             truthful = attributed == list(map(bool, sexes))
             sub = {"ref_male": ref_male, "sexes": mode}
-            kp = ("sexes-inferred" if mode == "inferred" else "sexes-given" if truthful else "sexes-given-contrary") + (
-                "/with-antitargets" if case["anti"] == "present" else ""
-            )
+            kp = "sexes-inferred" if mode == "inferred" else "sexes-given"
             female_samples = None if mode == "inferred" else mode == "given-female"
             ref = ctx.call(R.do_reference, t_paths, a_paths, None, ref_male, None, female_samples, False, False, False)
             shifted = any(a != ref_male for a in attributed)
@@ -504,7 +504,7 @@ def run_pooled(case, ctx, tmp):
             if isinstance(ref, Exc):
                 ctx.violation(
                     "a reference is built from coverage files with identical bins",
-                    f"pooled/raises/{ref.key}/{kp}/antitarget-{case['anti']}",
+                    f"pooled/raises/{ref.key}/antitarget-{case['anti']}",
                     expected="a reference",
                     observed=ref,
                     sub=sub,
@@ -513,16 +513,16 @@ def run_pooled(case, ctx, tmp):
             ctx.trace()
             tab = table_of(ref)
             if "log2" not in tab or "spread" not in tab:
-                ctx.violation("the reference has log2 and spread columns", f"pooled/columns/{kp}", observed=list(ref.data.columns), sub=sub)
+                ctx.violation("the reference has log2 and spread columns", "pooled/columns", observed=list(ref.data.columns), sub=sub)
                 continue
             ctx.outcome(hash(tuple(round(v, 6) for v in tab["log2"]) + tuple(round(v, 6) for v in tab["spread"])))
-            if not check_bins(ctx, tab, bins, f"pooled/bins/{kp}/antitarget-{case['anti']}", sub):
+            if not check_bins(ctx, tab, bins, f"pooled/bins/antitarget-{case['anti']}", sub):
                 continue
             for a, true_male in zip(attributed, sexes):
                 ctx.stratum("shift: %s sample -> %s reference" % ("male" if a else "female", "male" if ref_male else "female"))
-            model, _ok = judge_exact(ctx, tab, blocks, attributed, ref_male, kp, sub)
+            model, _ok = judge_exact(ctx, tab, blocks, attributed, ref_male, kp, sub, ab if case["anti"] == "present" else ())
             if truthful:
-                judge_sex_levels(ctx, tab, ref_male, kp, sub)
+                judge_sex_levels(ctx, tab, ref_male, "pooled/" + kp, sub)
             if case["clean"] and uniform and truthful and k >= 2:
                 # samples differ only in depth: common profile, spread ~ 0
                 ctx.stratum("depth-only cohort judged")
@@ -692,22 +692,22 @@ def run_corrected(case, ctx, tmp):
     ctx.stratum("corrected: " + kp)
     ctx.stratum("corrected: antitarget " + anti)
     if isinstance(ref, Exc):
-        ctx.violation("a reference is built from coverage files with identical bins", f"corrected/raises/{ref.key}/{kp}", observed=ref)
+        ctx.violation("a reference is built from coverage files with identical bins", f"corrected/raises/{ref.key}", observed=ref)
         return
     ctx.trace()
     tab = table_of(ref)
     ctx.outcome(hash(tuple(round(v, 6) for v in tab["log2"])))
     bins = tb + (ab if anti == "present" else [])
-    if not check_bins(ctx, tab, bins, f"corrected/bins/{kp}", None):
+    if not check_bins(ctx, tab, bins, "corrected/bins", None):
         return
-    judge_sex_levels(ctx, tab, ref_male, f"corrected/{kp}", None)
+    judge_sex_levels(ctx, tab, ref_male, "corrected/" + ("corrections-on" if corr else "corrections-off"), None)
     if depth_only:
         ctx.stratum("depth-only cohort judged")
         worst = max(abs(v) for v in tab["spread"])
         if not worst <= NEAR0:
             ctx.violation(
                 "normals that differ only in sequencing depth give spread ~ 0",
-                f"corrected/depth-only/{kp}",
+                "corrected/depth-only",
                 expected=0.0,
                 observed=worst,
             )
@@ -728,7 +728,7 @@ def run_corrected(case, ctx, tmp):
             if not RB.close(v, want[(c, s, e)][ix], TOL):
                 ctx.violation(
                     f"{col} is the {'G+C' if col == 'gc' else 'lowercase'} fraction of the unambiguous bases of the bin's sequence",
-                    f"corrected/{col}/{kp}",
+                    f"corrected/{col}",
                     expected=want[(c, s, e)][ix],
                     observed=v,
                     sub={"bin": [c, s, e]},
@@ -775,12 +775,12 @@ def run_flat(case, ctx, tmp):
             ctx.stratum("flat: antitarget " + anti)
             ctx.stratum("flat: chromosomes " + chroms)
             if isinstance(ref, Exc):
-                ctx.violation("a flat reference is built from the given regions", f"flat/raises/{ref.key}/{kp}", observed=ref, sub=sub)
+                ctx.violation("a flat reference is built from the given regions", f"flat/raises/{ref.key}/antitarget-{anti}", observed=ref, sub=sub)
                 continue
             ctx.trace()
             tab = table_of(ref)
             ctx.outcome(hash(tuple(tab.get("log2", [])) + tuple(round(v, 9) for v in tab.get("gc", [])) + tuple(round(v, 9) for v in tab.get("rmask", []))))
-            if not check_bins(ctx, tab, tb + ab, f"flat/bins/{kp}", sub):
+            if not check_bins(ctx, tab, tb + ab, f"flat/bins/antitarget-{anti}", sub):
                 continue
             for c, s, e, v in zip(tab["chromosome"], tab["start"], tab["end"], tab["log2"]):
                 role = RB.role_of(c)
@@ -789,7 +789,7 @@ def run_flat(case, ctx, tmp):
                 if not abs(v - want) <= TOL:
                     ctx.violation(
                         "a flat reference is 0 on autosomes, -1 on Y, and -1 on X only for a male reference",
-                        f"flat/log2/{role}/{'male-ref' if ref_male else 'female-ref'}/{naming}/{chroms}",
+                        f"flat/log2/{role}/{'male-ref' if ref_male else 'female-ref'}",
                         expected=want,
                         observed=v,
                         sub={**sub, "bin": [c, s, e]},
@@ -798,7 +798,7 @@ def run_flat(case, ctx, tmp):
             if with_fa:
                 for col, ix in (("gc", 0), ("rmask", 1)):
                     if col not in tab:
-                        ctx.violation(f"a flat reference built with a FASTA reports {col}", f"flat/{col}-missing/{kp}", observed=list(ref.data.columns), sub=sub)
+                        ctx.violation(f"a flat reference built with a FASTA reports {col}", f"flat/{col}-missing", observed=list(ref.data.columns), sub=sub)
                         continue
                     for c, s, e, v in zip(tab["chromosome"], tab["start"], tab["end"], tab[col]):
                         st = RB.gc_rmask(seqs[c][s:e])
@@ -808,7 +808,7 @@ def run_flat(case, ctx, tmp):
                         if not RB.close(v, st[ix], TOL):
                             ctx.violation(
                                 f"{col} is the {'G+C' if col == 'gc' else 'lowercase'} fraction of the unambiguous bases of the bin's sequence",
-                                f"flat/{col}/{kp}",
+                                f"flat/{col}",
                                 expected=st[ix],
                                 observed=v,
                                 sub={**sub, "bin": [c, s, e], "sequence": seqs[c][s:e]},
